@@ -43,6 +43,7 @@ mkdir -p "$TD"
   grep -q "\"nonce\":\"$NONCE\"" "$OUT/hannibal.json" || { echo "CHECKER-ERROR stale fact file for cfg=$CFG" >&2; rm -f "$OUT/hannibal.json"; exit 3; }
 ) 9>"$TD/.lock"
 
-# keep the fact cache small: drop all but the 60 most recently used trees
-ls -1dt "$V"/.cache/facts/*/ 2>/dev/null | tail -n +61 | xargs -r rm -rf
+# keep the fact cache small: drop all but the 80 most recently used trees
+# (best effort: several extractions may prune at the same time — a directory vanishing under `ls` must not fail this one)
+{ ls -1dt "$V"/.cache/facts/*/ 2>/dev/null | tail -n +81 | xargs -r rm -rf; } 2>/dev/null || true
 echo "$OUT/hannibal.json"
